@@ -194,7 +194,26 @@ def handlePatMatrixMode (mode : String) (ws : List String) : String :=
             if mode == "w" then w else if mode == "u" then u else u ++ " " ++ w
         | _ => "bad-op"
 
+/-- `pm let <env> <ty> <pat>`: is the destructuring pattern accepted (irrefutable)? -/
+def handleLetCheck (ws : List String) : String :=
+  match pEnv ws with
+  | none => "bad-op"
+  | some (defs, ws) =>
+    match pTy ws with
+    | none => "bad-op"
+    | some (ty, ws) =>
+      match pPat ws with
+      | some (p, []) =>
+        let env := mkEnv defs
+        if !patTyped env p ty then "ill-typed" else
+        match checkLet env (fuelFor env ty [fromAst env ty p]) ty p with
+        | none => "fuel"
+        | some true => "let=accepted"
+        | some false => "let=rejected"
+      | _ => "bad-op"
+
 def handlePatMatrix : List String → String
+  | "let" :: ws => handleLetCheck ws
   | "w" :: ws => handlePatMatrixMode "w" ws
   | "u" :: ws => handlePatMatrixMode "u" ws
   | "wu" :: ws => handlePatMatrixMode "wu" ws
